@@ -78,4 +78,7 @@ Definition x_tflags (bs : list N) : N :=
             + 8 * (match assoc i track_license_tab with Some l => l | None => 9 end)
   | _ => 255
   end.
-Extraction "model.ml" x_rt x_cls x_vecrep x_settext x_tread x_rldec x_rlenc x_tflags.
+Require Import Builder.Builder Props.C18.
+Definition x_handshake (ops : list op) : mode * (N * list N) :=
+  let b := build ops in (b_mode b, enc_code (b_mode b) (isi_pval (isi_of b))).
+Extraction "model.ml" x_rt x_cls x_vecrep x_settext x_tread x_rldec x_rlenc x_tflags x_handshake.
